@@ -28,8 +28,9 @@ structure BackendCfg where
   pkRejectsWeak : Bool := true
   /-- secret-key decoder checks that the embedded public half matches the seed -/
   skChecksPubHalf : Bool := true
-  /-- PBKW (Argon2): memory not a multiple of 1024 is rejected (true) or floored (false) -/
-  argonMemMod1024 : Bool := true
+  /-- PBKW (Argon2): memory (a byte count) not a multiple of 1024 is rejected (true) or rounded down to
+      whole KiB like libsodium's crypto_pwhash, the reference (false) -/
+  argonMemMod1024 : Bool := false
   /-- PBKW (Argon2): parallelism other than 1 is supported -/
   argonParallel : Bool := true
   /-- PBKW (PBKDF2): zero iterations rejected with an error (false: treated as one iteration) -/
@@ -58,8 +59,7 @@ def cfgOf : Backend → BackendCfg
   | .v3lc => { nonceDraw := Extracted.nonceDrawLocal .v3lc, sealShortPanics := true,
                pbkwRejectsZeroIter := true, pkHybrid := true }
   | .v4 => { nonceDraw := Extracted.nonceDrawLocal .v4, sealShortPanics := true, pkRejectsWeak := false }
-  | .v4s => { nonceDraw := Extracted.nonceDrawLocal .v4s, pkRejectsWeak := false,
-              argonMemMod1024 := false, argonParallel := false }
+  | .v4s => { nonceDraw := Extracted.nonceDrawLocal .v4s, pkRejectsWeak := false, argonParallel := false }
 
 def BackendCfg.short (c : BackendCfg) : Res Bytes :=
   if c.sealShortPanics then .panic "local.rs: split_at_mut(32) on a payload shorter than the nonce"
